@@ -17,6 +17,40 @@ use tempfile::TempDir;
 use super::traits::{FileSystem, RandomAccessFile, ReadonlyRandomAccessFile, UnlockableFile};
 use super::FileLock;
 
+/**
+Take an exclusive advisory lock on an opened lock file.
+
+The lock belongs to the file that was opened, not to its name. If the name was removed or replaced
+between opening the file and locking it (e.g. by a concurrent `destroy_database`), the lock protects
+nothing: a later caller would create and lock a fresh file with the same name. The name is
+therefore checked again after the lock was obtained.
+*/
+fn lock_opened_file(file: &File, path: &Path) -> io::Result<()> {
+    file.try_lock_exclusive()?;
+
+    #[cfg(target_family = "unix")]
+    {
+        use std::os::unix::fs::MetadataExt;
+
+        let locked_file = file.metadata()?;
+        let is_same_file = match fs::metadata(path) {
+            Ok(named_file) => {
+                named_file.dev() == locked_file.dev() && named_file.ino() == locked_file.ino()
+            }
+            Err(_) => false,
+        };
+        if !is_same_file {
+            // Dropping the file handle also releases the lock
+            return Err(io::Error::new(
+                io::ErrorKind::Other,
+                "The lock file was removed or replaced while it was being locked.",
+            ));
+        }
+    }
+
+    Ok(())
+}
+
 impl ReadonlyRandomAccessFile for File {
     #[cfg(target_family = "windows")]
     fn read_from(&self, buf: &mut [u8], offset: usize) -> io::Result<usize> {
@@ -150,7 +184,7 @@ impl FileSystem for OsFileSystem {
             .open(path)?;
         #[cfg(raindb_verif)]
         crate::verif_hooks::sched::point("lock:after_open");
-        file.try_lock_exclusive()?;
+        lock_opened_file(&file, path)?;
 
         Ok(FileLock::new(Box::new(file)))
     }
@@ -314,7 +348,7 @@ impl FileSystem for TmpFileSystem {
             .open(self.get_rooted_path(path))?;
         #[cfg(raindb_verif)]
         crate::verif_hooks::sched::point("lock:after_open");
-        file.try_lock_exclusive()?;
+        lock_opened_file(&file, &self.get_rooted_path(path))?;
 
         Ok(FileLock::new(Box::new(file)))
     }
